@@ -52,6 +52,11 @@ fn check(prop: &str, tier: Tier) {
             let cov = vh::c04::check(&run);
             run.finish(cov, &["input files come from an independent encoder written from docs/binary.md (harness/src/specbin.rs::enc), checked against the independent decoder on every file", "degrees of freedom are swept one at a time around a base encoding (thorough: full product on DOMs of <= 2 instances)", "UniqueId / Faces / Content.SourceTypes are encoded in the implementation's reading except in the three dedicated document-reading cases"]);
         }
+        "C05" => {
+            let run = Run::new("C05", tier, "model_checking");
+            let cov = vh::c05::check(&run);
+            run.finish(cov, &["the independent side is expat (python3 xml.etree) plus a value decoder/generator written from docs/xml.md (py/xmlspec.py), bound to the document by its worked examples", "types docs/xml.md does not describe (Vector2int16, SecurityCapabilities) are outside the writer-direction value check", "where document and implementation cannot both be right the document's reading decides and the divergence is a listed finding"]);
+        }
         "C06" => {
             let run = Run::new("C06", tier, "model_checking");
             let cov = vh::c06::check(&run);
@@ -392,6 +397,7 @@ fn replay(prop: &str, file: &std::path::Path) {
         "C06" => simple_replay("C06", vh::c06::replay(case)),
         "C03" => simple_replay("C03", vh::c03::replay(case)),
         "C04" => simple_replay("C04", vh::c04::replay(case)),
+        "C05" => simple_replay("C05", vh::c05::replay(case)),
         "C08" => simple_replay("C08", vh::c08::replay(case)),
         "C07" => simple_replay("C07", vh::c07::replay(case)),
         "C13" => simple_replay("C13", vh::c13::replay(case)),
